@@ -31,6 +31,8 @@ pub enum Op {
     J2(bool),
     Uio(u8, bool),
     Di1(u8),
+    /// Bus::master_reset(): board outputs are reset, comparators are refreshed by the next DAC write / analog change
+    MasterReset,
 }
 
 fn op_json(op: &Op) -> J {
@@ -43,6 +45,7 @@ fn op_json(op: &Op) -> J {
         Op::J2(v) => obj![("op", "j2"), ("value", *v)],
         Op::Uio(i, v) => obj![("op", "uio"), ("pin", *i), ("value", *v)],
         Op::Di1(v) => obj![("op", "di1"), ("value", *v)],
+        Op::MasterReset => obj![("op", "master_reset")],
     }
 }
 
@@ -60,6 +63,7 @@ fn ops_from_json(j: &J) -> Vec<Op> {
                     "j1" => Op::J1(gb(o, "value")),
                     "j2" => Op::J2(gb(o, "value")),
                     "uio" => Op::Uio(gi(o, "pin") as u8 % 3, gb(o, "value")),
+                    "master_reset" => Op::MasterReset,
                     _ => Op::Di1(gi(o, "value") as u8),
                 })
                 .collect()
@@ -112,8 +116,9 @@ const FF: u8 = 0x02;
 const SRC: u8 = 0x01;
 
 /// Apply one operation and check every relation. Returns a (signature, what) on failure.
-fn step(bus: &mut Bus, op: &Op, last_j: &mut [Option<bool>; 2], rep: &mut Report) -> Option<(String, String)> {
+fn step(bus: &mut Bus, op: &Op, last_j: &mut [Option<bool>; 2], stale: &mut [bool; 2], rep: &mut Report) -> Option<(String, String)> {
     let pre = pre_of(bus);
+    let board_before = bus.board().clone();
     match *op {
         Op::Write(a, v) => bus.write(a, v),
         Op::Temp(b) => bus.board_mut().set_temp(f32::from_bits(b)),
@@ -133,6 +138,17 @@ fn step(bus: &mut Bus, op: &Op, last_j: &mut [Option<bool>; 2], rep: &mut Report
             _ => bus.board_mut().set_universal_input_output3(v),
         },
         Op::Di1(v) => bus.board_mut().set_digital_input1(v),
+        Op::MasterReset => {
+            bus.master_reset();
+            // the DAC registers changed without the comparators being refreshed
+            *stale = [true, true];
+            rep.inc("master_resets");
+        }
+    }
+    match *op {
+        Op::Write(0xF0, _) | Op::Ai1(_) => stale[0] = false,
+        Op::Write(0xF1, _) | Op::Ai2(_) | Op::Temp(_) => stale[1] = false,
+        _ => {}
     }
     let b = bus.board();
     let dasr = b.dasr().bits();
@@ -184,10 +200,10 @@ fn step(bus: &mut Bus, op: &Op, last_j: &mut [Option<bool>; 2], rep: &mut Report
     let c1 = b.analog_inputs()[0] > org[0] as f32 / 100.0;
     let in2 = if b.temp() > &b.analog_inputs()[1] { *b.temp() } else { b.analog_inputs()[1] };
     let c2 = in2 > org[1] as f32 / 100.0;
-    if (dasr & COMP1 != 0) != c1 {
+    if !stale[0] && (dasr & COMP1 != 0) != c1 {
         return Some(("C14:comp1".into(), format!("COMP1 bit {} but AI1 {:?} vs DAC1 {:?}", dasr & COMP1 != 0, b.analog_inputs()[0], org[0] as f32 / 100.0)));
     }
-    if (dasr & COMP2 != 0) != c2 {
+    if !stale[1] && (dasr & COMP2 != 0) != c2 {
         return Some(("C14:comp2".into(), format!("COMP2 bit {} but max(AI2,TEMP) {:?} vs DAC2 {:?}", dasr & COMP2 != 0, in2, org[1] as f32 / 100.0)));
     }
     if (dasr ^ pre.dasr) & (COMP1 | COMP2) != 0 {
@@ -266,6 +282,7 @@ fn step(bus: &mut Bus, op: &Op, last_j: &mut [Option<bool>; 2], rep: &mut Report
         Op::J2(_) => 12,
         Op::Uio(i, _) => 13 + i as u64,
         Op::Di1(_) => 16,
+        Op::MasterReset => 17,
     };
     rep.class(&[opkind, source as u64, falling as u64, should_raise as u64, pre.uio_dir.iter().fold(0, |a, d| a * 2 + *d as u64)]);
     if should_raise {
@@ -276,6 +293,26 @@ fn step(bus: &mut Bus, op: &Op, last_j: &mut [Option<bool>; 2], rep: &mut Report
     } else {
         if daisr & FF != 0 && pre.daisr & FF == 0 || daisr & SRC != 0 && pre.daisr & SRC == 0 {
             return Some((format!("C14:int-raised-without-cause:op{}", opkind), format!("DAISR went {:#04x} -> {:#04x} although the selected source {} made no configured transition through a listed cause", pre.daisr, daisr, source)));
+        }
+    }
+    // explicit clears: a write to 0xF3 deletes the flip-flop, an ICR write deletes flip-flop, pending and requested
+    if let Op::Write(a, v) = *op {
+        if a == 0xF3 && daisr & FF != 0 {
+            return Some(("C14:int-ff-not-deleted".into(), "a write to 0xF3 left the interrupt flip-flop set".into()));
+        }
+        if a == 0xF2 && v >> 6 == 3 {
+            if daisr & 0x0E != 0 {
+                return Some(("C14:icr-write-does-not-clear".into(), format!("a write of the interrupt control register left DAISR = {:#04x}", daisr)));
+            }
+            if b.daicr().bits() != v & 0x3F {
+                return Some(("C14:icr-not-stored".into(), format!("interrupt control register {:#04x} after writing {:#04x}", b.daicr().bits(), v)));
+            }
+        }
+        if a == 0xF2 && v >> 6 == 1 && *b != board_before {
+            return Some(("C14:selector-01-not-ignored".into(), format!("a write of {:#04x} (selector 01, documented as doing nothing) to 0xF2 changed the board", v)));
+        }
+        if a == 0xF2 && v >> 6 == 2 && b.uio_dir() != &[v & 1 != 0, v & 2 != 0, v & 4 != 0] {
+            return Some(("C14:udr-not-stored".into(), "UIO directions differ from the written direction register".into()));
         }
     }
     // read of the status registers returns them
@@ -308,6 +345,7 @@ fn gen_op(rng: &mut Rng) -> Op {
         14 => Op::J1(rng.bool()),
         15 => Op::J2(rng.bool()),
         16..=18 => Op::Uio(rng.below(3) as u8, rng.bool()),
+        19 if rng.chance(1, 3) => Op::MasterReset,
         _ => Op::Di1(rng.u8()),
     }
 }
@@ -315,10 +353,11 @@ fn gen_op(rng: &mut Rng) -> Op {
 fn run_ops(ops: &[Op], rep: &mut Report) -> Option<(String, String, usize)> {
     let mut bus = Bus::new();
     let mut last_j = [None, None];
+    let mut stale = [false, false];
     for (i, op) in ops.iter().enumerate() {
         let r = catch(|| {
             let mut local = Report::new();
-            let r = step(&mut bus, op, &mut last_j, &mut local);
+            let r = step(&mut bus, op, &mut last_j, &mut stale, &mut local);
             (r, local)
         });
         match r {
